@@ -5,9 +5,12 @@ import studysim as SS
 from corr import Case, compare, judge, account
 
 
-def one_case(ctx, k, adversarial=False, hash_ws=None, monitor=None, pgen=True, spec=None):
+def one_case(ctx, k, adversarial=False, hash_ws=None, monitor=None, pgen=True, spec=None, odd_root=False):
     rng = ctx.rng
     root = os.path.join(ctx.scratch, "st", "s%s" % k)
+    if odd_root and rng.random() < 0.25:
+        # the user's own choice of output directory (-o / OUTPUT_PATH) is not Maestro's to rename
+        root += rng.choice([" out", "+v2", ",b", " é", " (copy)", "'s"])
     dep = os.path.join(ctx.scratch, "depdir")
     os.makedirs(dep, exist_ok=True)
     if spec is None:
